@@ -238,7 +238,7 @@ def oracleCompressor (tbl : List (Bytes × Nat × Bytes)) : Compressor where
     | none => some (0xEE :: 0xEE :: raw)
   decompress c :=
     match tbl.find? (fun e => e.2.1 == 1 && e.2.2 == c) with
-    | some (raw, _, _) => some raw
+    | some (raw, _, _) => if raw.length ≤ 65535 then some raw else none   -- `Compressor.Sound.bounded`
     | none => none
 
 end Chitchat.Driver
